@@ -40,7 +40,11 @@ Theorem coupling_wiring :
   g2p_power_led_written_writes = ("name_net_gas", "sink", "elm_idx_gas", "mdot_kg_per_s")%string /\
   g2g_written_reads = [("name_net_from", "sink", "element_index_from", "mdot_kg_per_s"); ("name_net_from", "sink", "element_index_from", "scaling")]%string /\
   g2g_written_writes = ("name_net_to", "source", "element_index_to", "mdot_kg_per_s")%string /\
-  map snd (map snd g2g_calorific) = ["get_fluid(multinet['nets'][name_gas_net_from])"; "get_fluid(multinet['nets'][name_gas_net_to])"]%string.
+  map snd (map snd g2g_calorific) = ["get_fluid(multinet['nets'][name_gas_net_from])"; "get_fluid(multinet['nets'][name_gas_net_to])"]%string /\
+  p2g_written_params = ["load_p_mw"; "load_scaling"; "fluid_calorific_value"; "efficiency"]%string /\
+  g2p_written_params = ["sink_mdot_kg_per_s"; "sink_scaling"; "fluid_calorific_value"; "efficiency"]%string /\
+  g2p_power_led_written_params = ["elm_type_power_p_mw"; "elm_type_power_scaling"; "fluid_calorific_value"; "efficiency"]%string /\
+  g2g_written_params = ["sink_mdot_kg_per_s"; "sink_scaling"; "gas1_calorific_value"; "gas2_calorific_value"; "efficiency"]%string.
 Proof. repeat split. Qed.
 Print Assumptions coupling_wiring.
 
